@@ -29,7 +29,9 @@ ASCII_B = z3.Function('ascii_b', Bytes, Bool)  # every byte < 0x80
 UTF8_OK = z3.Function('utf8_ok', Bytes, Bool)  # bytes.decode() does not raise
 STRIP0 = z3.Function('strip0', Bytes, Bytes)  # bytes.strip(b'\0')
 PAD16 = z3.Function('pad16', Bytes, Bytes)    # struct '16s' packing (NUL pad / truncate to 16)
-SPAD16 = z3.Function('spad16', Bytes, Bytes)  # 16-character field padded with trailing spaces
+SPAD16 = z3.Function('spad16', Bytes, Bytes)  # bytes.ljust(16, b' '): space-padded to at least 16
+STRIPP = z3.Function('strip_pad', Bytes, Bytes)   # bytes.strip(b'\0 ')
+LJ16 = z3.Function('ljust16', Str, Str)       # str.ljust(16)
 NONUL_ENDS = z3.Function('nonul_ends', Bytes, Bool)  # no NUL at either end (or empty)
 
 
@@ -185,8 +187,37 @@ class Facts(object):
         """struct '16s' field: NUL-pad (or truncate) to 16 bytes."""
         t = PAD16(b)
         self.add(z3.Length(t) == 16)
+        self.add(z3.Implies(z3.Length(b) == 16, t == b))
+        # NUL padding is also removed by strip(b'\0 ')
+        self.add(z3.Implies(z3.And(z3.Length(b) <= 16, NONUL_ENDS(b)), STRIPP(t) == b))
         # padding is undone by strip when the content has no NUL at its ends and fits
         self.add(z3.Implies(z3.And(z3.Length(b) <= 16, NONUL_ENDS(b)), STRIP0(t) == b))
+        return t
+
+    def spad16(self, b):
+        """b.ljust(16, b' '): NONUL_ENDS means 'no NUL and no space at either end (or empty)'"""
+        t = SPAD16(b)
+        lb = z3.Length(b)
+        self.add(z3.Length(t) == z3.If(lb <= 16, 16, lb))
+        self.add(z3.Implies(lb >= 16, t == b))
+        self.add(z3.Implies(ASCII_B(b), ASCII_B(t)))
+        # padding is undone by strip(b'\0 ') when the content has no pad character at its ends
+        self.add(z3.Implies(z3.And(lb <= 16, NONUL_ENDS(b)), STRIPP(t) == b))
+        return t
+
+    def ljust16(self, s):
+        t = LJ16(s)
+        es = self.enc(s)
+        et = self.enc(t)
+        self.add(z3.Implies(ASCII_S(s), z3.And(ASCII_S(t), et == self.spad16(es))))
+        self.add(SLEN(t) == z3.If(SLEN(s) <= 16, 16, SLEN(s)))
+        return t
+
+    def strip_pad(self, b):
+        t = STRIPP(b)
+        self.add(z3.And(z3.Length(t) <= z3.Length(b), NONUL_ENDS(t)))
+        self.add(z3.Implies(NONUL_ENDS(b), t == b))
+        self.add(z3.Implies(ASCII_B(b), ASCII_B(t)))
         return t
 
     def strip0(self, b):
